@@ -60,6 +60,10 @@ fn v1_fields(line: &[u8]) -> Vec<(usize, usize)> {
     out
 }
 
+pub fn v1_corruption_streams(base: &[u8]) -> Vec<Vec<u8>> {
+    v1_corruptions(base).into_iter().filter(|c| !c.skip).map(|c| c.stream).collect()
+}
+
 fn v1_corruptions(base: &[u8]) -> Vec<Corruption> {
     let mut out = Vec::new();
     let n = base.len();
@@ -159,9 +163,11 @@ fn v1_corruptions(base: &[u8]) -> Vec<Corruption> {
                 );
             }
         }
+        // (the long ones wrap to 80 in 16, 32, 64 and 128 bits)
         let bad_port = [
             "", "65536", "99999", "-1", "+80", "080", "00", "8a", "0x50", "\u{ff18}\u{ff10}",
-            "+0", "-0", "1e3", "80.", "655360", "٨٠",
+            "+0", "-0", "1e3", "80.", "655360", "٨٠", "65616", "4294967376", "18446744073709551696",
+            "99999999999999999999", "340282366920938463463374607431768211536",
         ];
         for (fi, name, kind) in [
             (4usize, "source port", "InvalidSourcePort"),
@@ -174,6 +180,25 @@ fn v1_corruptions(base: &[u8]) -> Vec<Corruption> {
                     format!("{} -> {:?}", name, r),
                     replace(base, s, e, r.as_bytes()),
                     Expect::V1(kind),
+                );
+            }
+        }
+    }
+    if !is_unknown && fields.len() == 6 && line.starts_with(b"PROXY TCP6") {
+        // the 107-byte limit on a line whose every field is valid: two 45-character addresses
+        let long = "ffff:ffff:ffff:ffff:ffff:ffff:255.255.255.255";
+        for (src, dst, sp, dp) in [
+            (long, long, "65535", "65535"),
+            (long, "ffff:ffff:ffff:ffff:ffff:ffff:ffff:ffff", "65535", "10000"),
+            (long, "ffff:ffff:ffff:ffff:ffff:ffff:ffff:fff", "65535", "65535"),
+        ] {
+            let l = format!("PROXY TCP6 {} {} {} {}\r\n", src, dst, sp, dp);
+            if l.len() > 107 {
+                push(
+                    "length",
+                    format!("TCP6 line of {} bytes whose fields are all valid", l.len()),
+                    l.into_bytes(),
+                    Expect::V1("HeaderTooLong"),
                 );
             }
         }
